@@ -315,46 +315,69 @@ func vtsBytes() []byte {
 // C06 H4: one display row -> runs: text only between start box and end box, parity-failed cells (0) contribute
 // nothing, runs split at colour codes, rows of a page in row order.  BV8; 5 / 7 symbolic cells.
 func VH_C06_RowToRuns() {
-	n := vbound("cells", 5, 7)
+	n := vbound("cells", 5, 6)
 	row := make([]byte, 40)
 	for i := range row {
 		row[i] = ' '
 	}
 	for i := 0; i < n; i++ {
-		row[2+i] = nondetByteIn("ab \x0b\x0a\x03\x00")
+		row[2+i] = nondetByteIn("ab \x0b\x0a\x03\x00\x0d")
 	}
 	cd := newTeletextCharacterDecoder()
 	cd.updateCharset(astikit.UInt8Ptr(0), false)
 	it := &Item{}
 	vreach("pre")
 	parseTeletextRow(it, cd, nil, row)
-	// spec: letters count only while the box is open
-	want := ""
+	// spec: letters count only while the box is open; a run ends at a colour code that changes the colour and at every
+	// size code met while the box is open; blank runs are dropped
+	var want []string
+	cur := ""
 	open := false
+	colour := byte(0xff)
+	flush := func() {
+		if vtrimSpaces(cur) != "" {
+			want = append(want, vtrimSpaces(cur))
+		}
+		cur = ""
+	}
 	for i := 0; i < 40; i++ {
-		switch row[i] {
-		case 0x0b:
+		c := row[i]
+		switch {
+		case c == 0x0b:
 			open = true
-		case 0x0a:
+		case c == 0x0a:
 			open = false
-		case 'a', 'b':
+		case c <= 0x07:
+			if c != colour {
+				if open {
+					flush()
+				}
+				colour = c
+			}
+		case c >= 0x0c && c <= 0x0f:
 			if open {
-				want += string([]byte{row[i]})
+				flush()
+			}
+		default:
+			if open {
+				cur += string([]byte{c})
 			}
 		}
 	}
-	got := ""
+	flush()
+	var got []string
 	for _, l := range it.Lines {
 		for _, li := range l.Items {
-			for i := 0; i < len(li.Text); i++ {
-				if li.Text[i] != ' ' {
-					got += string([]byte{li.Text[i]})
-				}
-			}
+			got = append(got, vtrimSpaces(li.Text))
 		}
 	}
 	vassert(len(it.Lines) <= 1, "C06 row: at most one line per row")
-	vassert(got == want, "C06 row: exactly the boxed text of the row, parity-failed and unboxed cells contribute nothing")
+	vassert(len(got) == len(want), "C06 row: runs split at colour and size codes, unboxed and blank cells contribute nothing")
+	for i := range want {
+		if i < len(got) {
+			vassert(got[i] == want[i], "C06 row: exactly the boxed text of each run")
+		}
+	}
 	vreach("end")
 }
 
